@@ -74,6 +74,8 @@ namespace ratio
         {
             if (root_level())
             { // we make sure that gamma is at true..
+                if (get_sat_core().value(gr.gamma) == False)
+                    gr.init(); // what has been read since the last call has falsified the previous graph var (e.g., a flaw closed by pruning is now active): the graph extended below needs a new one..
                 gr.build();
                 gr.check();
             }
